@@ -12,9 +12,17 @@
    NOT proved (C01_partial): the one-step soundness of | and & when FollowPath recombines the
    boundaries -- the geometric heart (a Jordan-curve-type argument) -- stays the explicit premise
    of C01_expressions and is checked on every run by the oracle (membership at one point of
-   every cell of the edge arrangement of the operands, exact). *)
+   every cell of the edge arrangement of the operands, exact).
+   (4) C01_result_on_operand_boundaries / C01_cellwise: for every expression over | & - ^ ~ + *
+   neg, the boundary of the result lies on the boundaries of the given shapes, hence the result
+   region is CONSTANT ON EVERY CELL of the arrangement of those boundaries (two points joined
+   by a polyline that avoids all of them get the same answer) -- provided the joins made by the
+   path following are exact (ejoins, decidable per instance: ejoins_b).  This is the theorem
+   that makes the oracle's "one sample point per cell" a COMPLETE judgement for polygons. *)
 From Coq Require Import List Bool.
-From SV Require Import Spec.Spec Lemmas.Logic Lemmas.Fuel.
+From SV Require Import Spec.Spec Lemmas.Logic Lemmas.Fuel Lemmas.Construct Lemmas.Measure Lemmas.Cells Lemmas.CellsAll.
+Import ListNotations.
+Open Scope Q_scope.
 
 Definition C01_full : Prop :=
   forall (p : point) (ok : shape -> Prop) e env env' r,
@@ -49,3 +57,36 @@ Example C01_nonvacuous : exists env' r,
   eval_expr [sqA; sqB] (EXor (EVar 0) (EVar 1)) = Ok (env', r) /\
   contains_point r (1#2, 1#2) true = true /\ contains_point r (3#2, 3#2) true = false.
 Proof. exact xor_example. Qed.
+
+(* the boundary of the value of any expression lies on the boundaries of the shapes given *)
+Theorem C01_result_on_operand_boundaries : forall e env env' s,
+  eval_expr env e = Ok (env', s) -> ejoins env e ->
+  (forall x, In x env -> shape_lines x = true /\ good (jordans x)) ->
+  (shape_lines s = true /\ good (jordans s) /\ forall p, on_bdry_shape s p -> on_bdry_env env p) /\
+  (forall y, In y env' -> shape_lines y = true /\ good (jordans y) /\
+   forall p, on_bdry_shape y p -> on_bdry_env env p).
+Proof. exact eval_expr_boundary_sub. Qed.
+(* ... hence its region is constant along every straight segment (and every polyline) that
+   avoids those boundaries: the result is a union of cells of the arrangement *)
+Theorem C01_cellwise : forall e env env' s p q,
+  eval_expr env e = Ok (env', s) -> ejoins env e ->
+  (forall x, In x env -> shape_lines x = true /\ good (jordans x)) ->
+  (forall x, In x env -> clear1 x p q) ->
+  region s p = region s q.
+Proof. exact eval_expr_cellwise. Qed.
+(* one operator, with the premise spelled out on the re-split operands it returns *)
+Theorem C01_or_cellwise : forall a b a' b' s p q, op_or a b = Ok (a', b', s) ->
+  shape_lines a = true -> shape_lines b = true ->
+  good (jordans a) -> good (jordans b) -> exact_joins a' b' ->
+  seg_clear a b p q -> region s p = region s q.
+Proof. exact op_or_cellwise. Qed.
+(* the premise is decidable per instance *)
+Theorem C01_exact_joins_decidable : forall e env, ejoins_b env e = true -> ejoins env e.
+Proof. exact ejoins_b_sound. Qed.
+Print Assumptions C01_result_on_operand_boundaries.
+Print Assumptions C01_cellwise.
+Print Assumptions C01_exact_joins_decidable.
+Example C01_cellwise_nonvacuous :
+  exists env' s, eval_expr [exA; exB] ex_e2 = Ok (env', s) /\ ejoins [exA; exB] ex_e2 /\
+    region s (1 # 2, 1 # 2) = RIn /\ region s (1 # 2, 1 # 2) = region s (1 # 2, 3 # 2).
+Proof. exact ex_cells_nested. Qed.
